@@ -973,10 +973,13 @@ pub fn guard_of_current(p: &Program, s: &MState, t: usize) -> bool {
 /// Operations whose blocking does NOT commute with the other operations on the same object (a
 /// FIFO position or a rendezvous is taken by arriving): a choice point must precede their arrival,
 /// so a task that has just started one must be offered at least until it has had a step of its own.
-fn arrival_is_visible(s: &MState, op: &Op) -> bool {
+fn arrival_is_visible(s: &MState, t: usize, op: &Op) -> bool {
     match op {
-        Op::Recv(_) | Op::TryRecv(_) | Op::Send(_) | Op::TrySend(_) => true,
-        Op::SemAcquire(sm, _) | Op::SemCancel(sm, _, _) | Op::SemStash(sm, _) => s.sem[*sm].fair,
+        // (an operation on an endpoint the task does not own is skipped by the interpreter: purely local)
+        Op::Recv(c) | Op::TryRecv(c) => s.tasks[t].has_rx[*c],
+        Op::Send(c) | Op::TrySend(c) => s.tasks[t].has_tx[*c],
+        Op::SemAcquire(sm, _) | Op::SemCancel(sm, _, _) => s.sem[*sm].fair,
+        Op::SemStash(sm, _) => s.sem[*sm].fair && s.sem[*sm].stash.is_none(),
         _ => false,
     }
 }
@@ -989,7 +992,7 @@ pub fn enabled(p: &Program, s: &MState, t: usize) -> bool {
         TSt::Pending { micro, tries } => {
             if *micro == 0 && *tries == 0 {
                 if let Some((op, _)) = op_for_label(p, t, &s.tasks[t].label) {
-                    if arrival_is_visible(s, &op) {
+                    if arrival_is_visible(s, t, &op) {
                         return true;
                     }
                 }
@@ -1160,6 +1163,11 @@ fn advance_one(p: &Program, s0: &MState, t: usize, evs: &[&Event], out: &mut BTr
                     let nt = if started_here { 0 } else { (*tries + 1).min(2) };
                     b.tasks[t].st = TSt::Pending { micro: *j, tries: nt };
                     out.insert(b);
+                }
+                // an operation whose arrival is visible to other tasks has its choice point first: nothing
+                // of it may take effect in the step that merely started it
+                if started_here && *j == 0 && arrival_is_visible(&s, t, &op) {
+                    continue;
                 }
                 // option: execute the next micro-op
                 if let Some(outs) = micro(&s, t, &op, *j, uv) {
